@@ -25,7 +25,7 @@ RULE = ('cases = N in 2..8 concurrent associations on one server AE (and, in hal
         'mid-transfer x schedule policy {uniform, round-robin-biased, starvation-biased} x '
         'fine-grain pre-emption on/off; oracle: every client\'s outcome equals what it would be '
         'alone; non-trivial = every case; distinct = distinct scheduler signatures'
-        '; hot family (shared entity reconfigured in gated rounds, pre-emption in the configuration code); storage-commitment operations; 25 % with one more connection that never sends anything')
+        '; hot family (shared entity reconfigured in gated rounds, pre-emption in the configuration code); storage-commitment operations; 25 % with one more connection that never sends anything; warm family: burst of long associations right behind one that has just ended')
 ASSUMPTIONS = ['the reference outcome of a client alone is computed by the harness from what the '
                'client sent (data echoes, statuses, match lists), not by a second run',
                'pre-emption granularity: source lines of the listed functions; not bytecodes']
@@ -55,6 +55,12 @@ def cases(tier, seed):      # noqa: F811
         yield dict(hang=True, cap=rnd.choice([2048, 8192]), pause=rnd.choice([7.0, 12.0, 30.0]),
                    nres=rnd.choice([60, 120]), start=rnd.choice([0.5, 2.0, 20.0]),
                    seed=seed * 100207 + i)
+    # a burst of associations right behind one that has just ended (whatever the entity keeps
+    # from it - idle workers, cached objects - must not make the newcomers wait for each other):
+    # all stay open for a while, longer than the time any of them is prepared to wait
+    for i in range(30 if tier == 'quick' else 1500):
+        yield dict(warm=True, n=rnd.choice([2, 3, 5]), gap=rnd.choice([0.2, 1.0, 3.0]),
+                   hold=rnd.choice([12.0, 30.0]), seed=seed * 100237 + i)
     # (the bulk comes after so that a wall-clock budget cut never drops the family above)
     for c in _base_cases(tier, seed):
         yield c
@@ -151,9 +157,64 @@ def _hang_case(case):
         world.close()
 
 
+def _warm_case(case):
+    from pynetdicom2 import applicationentity, sopclass
+    world = SimWorld('c20/warm/%s' % case['seed'], with_fs=True)
+    sim = world.sim
+    viol = []
+
+    def v(rule, detail):
+        viol.append({'sig': 'C20 %s' % rule, 'detail': '%s\ncase %r\nhandler errors %r' % (
+            detail, case, world.handler_errors[:1])})
+    try:
+        srv = world.make_ae(applicationentity.AE, 'SRV', 11112, [rc.IMPLICIT_LE], 16384)
+        srv.timeout = 600
+        srv.add_scp(sopclass.verification_scp)
+        world.serve_ae(srv, ADDR)
+        out = {}
+
+        def client(k, start, hold):
+            sim.sleep(start)
+            cli = world.make_ae(applicationentity.ClientAE, 'CLI%d' % k, [rc.IMPLICIT_LE], 16384)
+            cli.timeout = 8
+            cli.add_scu(sopclass.verification_scu)
+            t0 = sim.now
+            try:
+                with cli.request_association({'aet': 'SRV', 'address': ADDR[0],
+                                              'port': ADDR[1]}) as assoc:
+                    out[k] = [int(assoc.get_scu(sopclass.VERIFICATION_SOP_CLASS)(1))]
+                    out[('t', k)] = sim.now - t0
+                    if hold:
+                        sim.sleep(hold)
+                        out[k].append(int(assoc.get_scu(sopclass.VERIFICATION_SOP_CLASS)(2)))
+            except Exception as e:  # pylint: disable=broad-except
+                out[k] = repr(e)
+        world.spawn(lambda: client(0, 0.0, 0.0), 'client0')
+        for k in range(1, case['n'] + 1):
+            world.spawn(lambda k=k: client(k, 1.0 + case['gap'], case['hold']), 'client%d' % k)
+        world.run(tmax=600)
+        world.drain(3.0)
+        for k in range(case['n'] + 1):
+            want = [0] if k == 0 else [0, 0]
+            if out.get(k) != want:
+                v('undisturbed-client-failed exc=%s' % str(out.get(k)).split('(')[0][:30],
+                  'client %d of a burst right behind an association that had just ended: %r '
+                  '(the others: %r)' % (k, out.get(k), {j: out.get(j) for j in range(
+                      case['n'] + 1) if j != k}))
+                break
+        return {'violations': viol, 'stats': dict(sim.stats),
+                'digest': sim.digest.hexdigest(), 'sched_sig': sim.sched_sig.hexdigest(),
+                'steps': sim.steps, 'vsecs': sim.now - 1000.0, 'nontrivial': True,
+                'sample': {'case': case}}
+    finally:
+        world.close()
+
+
 def run_case(case):
     if case.get('hang'):
         return _hang_case(case)
+    if case.get('warm'):
+        return _warm_case(case)
     from pynetdicom2 import applicationentity, sopclass, exceptions
     import pynetdicom2
     import pydicom
